@@ -61,7 +61,7 @@ func buildWith(tb model.TableSpec, opt *harness.Options, rec *harness.Recorder, 
 	empty := model.TableSpec{}
 	c, _ = harness.Build(empty, opt, rec, nil)
 	for _, s := range tb.Services {
-		ws := harness.NewService(s, rec, nil)
+		ws := harness.NewService(s, rec, opt.Handler)
 		opt.Services = append(opt.Services, ws)
 		if freshMux {
 			c.ServeMux = newMux()
